@@ -274,7 +274,7 @@ def _write_includes(sb):
 
 def execute(scn, sb):
     seed, mode = scn["seed"], scn["mode"]
-    hist = scn["history"]
+    hist = [dict(base_cfg(), **c) for c in scn["history"]]      # (replays written before a dimension existed lack its key)
     env = scn.get("env") or {}
     refs = [reference(mode, c, sb, seed, env) for c in hist]
     sb.reset()
